@@ -2,6 +2,7 @@ SPECIFICATION MSpec
 CONSTANTS
   Nil = Nil
   Cap = 2
+  Self = "g1"
   W = 11
   P = 7
   MaxSteps = 7
